@@ -103,7 +103,9 @@ type result struct {
 	Throws string
 }
 
-func (r result) String() string { return fmt.Sprintf("out=%q ctl=%q throws=%q", r.Out, r.Ctl, r.Throws) }
+func (r result) String() string {
+	return fmt.Sprintf("out=%q ctl=%q throws=%q", r.Out, r.Ctl, r.Throws)
+}
 
 // runFresh executes programs one after another, each on its own freshly created VM, in
 // this process, under the given map order; returns the result of the last one.
@@ -498,9 +500,9 @@ var prop = &hx.Prop{
 	ID: "C20", Gen: gen, Decode: decode, Exec: execute, Shrink: shrink,
 	Components: map[string]string{
 		"interpreter, std/php builtins, data.OrderedMap, class/property machinery, output buffering": "real (instrumented copy of /repo; corpus files run the instrumented origami binary as a subprocess)",
-		"Go map iteration order (the adversary)":                                               "simulated: every range over a map with ordered keys goes through verifsim.MapKeys; the order is sorted, reverse or a seeded permutation per (site, call), chosen by the check",
-		"clock":     "in-process runs: synctest fake clock; subprocess runs: real clock, timestamps normalised, time-dependent scripts excluded by name",
-		"processes": "generated programs and A;B pairs: fresh VMs inside one worker process; corpus: one fresh OS process per run",
+		"Go map iteration order (the adversary)":                                                     "simulated: every range over a map with ordered keys goes through verifsim.MapKeys; the order is sorted, reverse or a seeded permutation per (site, call), chosen by the check",
+		"clock":                                                                                      "in-process runs: synctest fake clock; subprocess runs: real clock, timestamps normalised, time-dependent scripts excluded by name",
+		"processes":                                                                                  "generated programs and A;B pairs: fresh VMs inside one worker process; corpus: one fresh OS process per run",
 	},
 }
 
